@@ -46,6 +46,26 @@ def chunks(seq, size):
         yield seq[i:i + size]
 
 
+def checked_mc(ctx, module, cfg, name, expect):
+    """ctx.model_check, but a run expected to pass must really have completed without error: core only records
+    res.ok.  A JVM killed by the kernel (out of memory on the shared machine) is retried once."""
+    for attempt in (1, 2):
+        res = ctx.model_check(module, dict(cfg), name if attempt == 1 else name + "_retry", expect=expect)
+        if expect != "ok":
+            return res
+        complete = "Model checking completed" in res.out
+        if res.ok and complete:
+            return res
+        if res.invariant_violated or res.property_violated or res.assume_failed or res.deadlock:
+            raise core.MachineryError("model %s/%s: TLC refutes %s on a configuration that must hold\n%s"
+                                      % (module, name, res.invariant_violated, res.out[-3000:]))
+        # incomplete run (killed / crashed): forget its partial counts and retry once
+        ctx.states -= res.distinct
+        ctx.transitions -= res.generated
+        ctx.mc_runs.pop()
+    raise core.MachineryError("model %s/%s: TLC did not complete (rc=%s)\n%s" % (module, name, res.rc, res.out[-2000:]))
+
+
 def nproc_for(jobs):
     """worker processes for a batch: a process costs ~10 CPU-s to start (imports + JIT), a numpy job ~1.5 ms,
     a dask job ~0.3 s."""
